@@ -77,6 +77,18 @@ def check_twin(spec, acc):
                 for tag, sa, p2 in progs:
                     l2, o2 = p2.call(truth, bm, mut, "pos")
                     acc.case((key0, tag, tuple(sorted(truth.items())), bm, mut), bool(names), len(l1) + len(l2), (o1, o2 == o1))
+                    if l1 == l2 and o1 == o2 and o2[0] == "exc":
+                        # the failing call made twice in ONE context: the async rendering must observe the same both times
+                        (la, oa), (lb, ob) = p2.call_twice(truth, bm, mut, "pos")
+                        acc.bump("repeated_in_same_context")
+                        if (la, oa) != (l2, o2) or (lb, ob) != (l2, o2):
+                            which, lw, ow = ("second", lb, ob) if (lb, ob) != (l2, o2) else ("first", la, oa)
+                            acc.violation(core.Violation(
+                                PROP, "repeated_call_differs", fam.feat(sa, "pos", bm, mut),
+                                "{}: the call ends with {}; made twice in one context the {} call was observed as {} -> {} instead of {}".format(
+                                    tag, o2, which, lw, ow, l2),
+                                spec={"spec": spec, "truth": truth, "body_mode": bm, "mut": mut},
+                                script=fam.replay_script(sa, truth, bm, mut, "pos")))
                     if l1 != l2 or o1 != o2:
                         d = fam.first_diff(l1, l2)
                         acc.violation(core.Violation(
@@ -249,12 +261,52 @@ def run_placement(case, acc):
             core.unload_source(ns)
 
 
+def run_mixed_histories(acc):
+    """A condition that gives a plain value on some calls and a coroutine on others (``x > 0 and check(x)`` with an async check):
+    every history of two calls x (plain | coroutine) x (truthy | falsy) in one context; each call is judged by its own value."""
+    import itertools
+    for role in ("pre", "post"):
+        params = {"pre": "x", "post": "result"}[role]
+        deco = {"pre": "require", "post": "ensure"}[role]
+        src = P_SRC + "V['plain'] = True\n@icontract.{}(lambda {}: (V['v'] if V['plain'] else acheck({})), error=mkviol)\nasync def f(x):\n    LOG.append('body')\n    return 5\n".format(
+            deco, params, params)
+        ns = core.load_source(src, "c13m")
+        try:
+            for hist in itertools.product(itertools.product((True, False), (True, False)), repeat=2):
+                def go():
+                    outs = []
+                    for plain, v in hist:
+                        ns["V"]["plain"], ns["V"]["v"] = plain, v
+                        del ns["LOG"][:]
+                        try:
+                            outs.append(("ret", core.run_coro(ns["f"](1)), tuple(ns["LOG"])))
+                        except BaseException as e:  # noqa
+                            outs.append(("exc", type(e).__name__, tuple(ns["LOG"])))
+                    return outs
+                outs = core.fresh_ctx_run(go)
+                acc.case(("mixed", role, hist), True, sum(len(o[2]) for o in outs), tuple(o[:2] for o in outs))
+                for i, ((plain, v), o) in enumerate(zip(hist, outs)):
+                    want = ("ret", 5) if v else ("exc", "Viol")
+                    if o[:2] != want:
+                        acc.violation(core.Violation(
+                            PROP, "awaitable_taken_as_truthy" if o[0] == "ret" else "wrong_outcome",
+                            {"role": role, "cond": "lambda_mixed", "is_async": True, "step": i},
+                            "history {} of (gives a plain value?, value): call #{} expected {} got {} (log {})".format(hist, i, want, o[:2], o[2]),
+                            spec={"mixed": role}, script=src))
+                        break
+            acc.sample({"mixed_histories": role}, cap=2)
+        finally:
+            core.unload_source(ns)
+
+
 def work(chunk):
     import warnings
     warnings.simplefilter("ignore", RuntimeWarning)  # "coroutine ... was never awaited" (GC-timed, never compared)
     acc = core.Acc()
     for item in chunk:
-        if "role" in item:
+        if item == "mixed":
+            run_mixed_histories(acc)
+        elif "role" in item:
             run_placement(item, acc)
         else:
             check_twin(item, acc)
@@ -264,7 +316,7 @@ def work(chunk):
 def run(tier, t0):
     tw = twin_specs(tier)
     pl = placement_cases()
-    tot = core.merge(core.pmap(work, core.rotate(tw) + pl))
+    tot = core.merge(core.pmap(work, core.rotate(tw) + pl + ["mixed"]))
     return core.finish(
         PROP, tier, tot, t0,
         rule="(a) {} family-F programs of the async-capable kinds (function, method, static/class method, __call__; plain and DBC "
@@ -272,7 +324,9 @@ def run(tier, t0):
              "def and async def twins x all truth assignments (<=5 conditions, else <=2 falsy) x 6 body outcome/mutation modes (incl. a body that calls the same callable again): "
              "event logs and outcomes of the twins must be equal (no reference involved); (b) {} placement cases: condition / "
              "capture kind (plain, coroutine function, lambda returning coroutine / done Future / custom awaitable) x role x "
-             "sync|async x function|method x awaited value; non-trivial = at least one condition in effect".format(len(tw), len(pl)),
+             "sync|async x function|method x awaited value; plus every history of two calls, in one context, of an async function whose "
+             "pre-/postcondition gives a plain value on some calls and a coroutine on others x truthy/falsy; every violating twin call is also made "
+             "twice in one context (identical observations required); non-trivial = at least one condition in effect".format(len(tw), len(pl)),
         assumptions=["Futures / custom awaitables on *sync* callables and as invariants are not judged (statement silent)",
                      "coroutines are driven by hand (send(None) until StopIteration); every suspension simply resumes"],
         bounds={"twin_programs": len(tw), "placement_cases": len(pl)},
@@ -284,6 +338,8 @@ def replay(path):
     acc = core.Acc()
     if "placement" in data:
         run_placement(data["placement"], acc)
+    elif "mixed" in data:
+        run_mixed_histories(acc)
     else:
         check_twin(data["spec"], acc)
     for v in acc.violations[:5]:
